@@ -73,9 +73,14 @@ class ConnProxy:
         self._fi = fi
 
     def execute(self, sql, *a):
-        if not sql.lstrip().upper().startswith('SELECT'):
-            self._fi.tick()
-        return self._c.execute(sql, *a)
+        if sql.lstrip().upper().startswith('SELECT'):
+            return self._c.execute(sql, *a)
+        self._fi.tick()
+        try:
+            return self._c.execute(sql, *a)
+        except Exception:
+            self._fi.remaining = None      # one failure per operation: the cleanup is not failed again
+            raise
 
     def commit(self):
         self._fi.tick()
@@ -272,7 +277,11 @@ class Impl:
 
         def get_signer(key_name, key_locator_name=None):
             fi.tick()
-            return o_get(key_name, key_locator_name)
+            try:
+                return o_get(key_name, key_locator_name)
+            except Exception:
+                fi.remaining = None
+                raise
         tpm.save_key, tpm.delete_key, tpm.get_signer = save_key, delete_key, get_signer
 
     def reopen(self):
